@@ -180,6 +180,13 @@ def render_guard(guard: Optional[GuardIR]) -> Optional[str]:
     if guard is None:
         return None
     if not guard.is_composite:
+        if guard.params:
+            # 🎛️ A parameterised predicate (including the built-in `stateIn`)
+            #    is meaningless without its params; keep the object form.
+            return (
+                f"{{'type': {literal(guard.type)}, "
+                f"'params': {literal(guard.params)}}}"
+            )
         return literal(guard.type)
     children = ", ".join(
         _render_guard_value(child) for child in guard.children
